@@ -170,6 +170,8 @@ def run(d, xexe, sources, tag="xt"):
     res = xlib.run_cases(xexe, cases, d, tag=tag, flags="y")
     recs = []
     for c, r in zip(cases, res):
+        if r.get('status') in ('timeout', 'skipped', 'crash'):
+            continue                    # hangs and crashes are judged where the CPU budget and the sanitizers are (C09's main run)
         if 'toks' not in r:
             raise vlib.MachineryError("x_case gave no token list for %s: %r" % (c['id'], r))
         t = parse_tree(r['tree']) if r['status'] == 'ok' else None
